@@ -92,8 +92,25 @@ const APIS: &[ApiDef] = &[
     ApiDef { name: "try_stream_replace_all_with", fallible: true, takes_input: false, overlapping: false, overlapping_iter: false, stream: true },
 ];
 
+/// Input shapes: 0 = whole haystack, 1 = empty span in the middle, 2 = start
+/// one past the end ("done" input), 3 = proper sub-span.
+fn shape_span(hay: &str, shape: usize) -> (usize, usize) {
+    let n = hay.len();
+    match shape {
+        1 => (n / 2, n / 2),
+        2 => (n / 2 + 1, n / 2),
+        3 => (n.min(1), n - n.min(1).min(n.saturating_sub(1))),
+        _ => (0, n),
+    }
+}
+
 fn call_api(ac: &AhoCorasick, name: &str, hay: &str, anc: Anchored, npats: usize) -> Cls {
-    let inp = || Input::new(hay).anchored(anc);
+    call_api_shape(ac, name, hay, anc, npats, 0)
+}
+
+fn call_api_shape(ac: &AhoCorasick, name: &str, hay: &str, anc: Anchored, npats: usize, shape: usize) -> Cls {
+    let (ss, se) = shape_span(hay, shape);
+    let inp = || Input::new(hay).span(ss..se).anchored(anc);
     let rep: Vec<&str> = (0..npats).map(|_| "Z").collect();
     let cap = 8 * hay.len() + 64;
     let r: Result<Result<(), ()>, _> = catch_unwind(AssertUnwindSafe(|| match name {
@@ -293,7 +310,11 @@ pub fn run_c13(rep: &Report) -> i32 {
                     Cls::Panic
                 };
                 for hay in &hays {
-                    let got = call_api(&ac, api.name, hay, anc, pats.len());
+                  for shape in 0..4usize {
+                    if shape > 0 && !api.takes_input {
+                        continue;
+                    }
+                    let got = call_api_shape(&ac, api.name, hay, anc, pats.len(), shape);
                     st.add("calls", 1);
                     if reject {
                         st.add("calls_expected_rejected", 1);
@@ -302,14 +323,15 @@ pub fn run_c13(rep: &Report) -> i32 {
                         rep.violation(Violation {
                             property: rep.property.clone(),
                             what: format!("rejection-{}", api.name),
-                            case: c13_case(w.mk, w.sk, w.kind, pats, w.pre, api.name, hay, anc),
+                            case: c13_case(w.mk, w.sk, w.kind, pats, w.pre, api.name, hay, anc).set("shape", J::i(shape as i64)),
                             detail: format!(
-                                "{} start_kind={} kind={} prefilter={} patterns {} ({}): {}(anchored={}) on \"{}\": expected {:?} by the four-rule table, got {:?}",
-                                w.mk.name(), skname(w.sk), kname(w.kind), w.pre, pats_show(pats), sname, api.name, anc.is_anchored(), json::show(hay.as_bytes()), exp, got
+                                "{} start_kind={} kind={} prefilter={} patterns {} ({}): {}(anchored={}) on \"{}\" span {:?}: expected {:?} by the four-rule table, got {:?}",
+                                w.mk.name(), skname(w.sk), kname(w.kind), w.pre, pats_show(pats), sname, api.name, anc.is_anchored(), json::show(hay.as_bytes()), shape_span(hay, shape), exp, got
                             ),
                             tags: vec![("api".into(), api.name.into()), ("kind".into(), w.mk.name().into()), ("start_kind".into(), skname(w.sk).into()), ("automaton".into(), kname(w.kind).into()), ("anchored".into(), anc.is_anchored().to_string())],
                         });
                     }
+                  }
                 }
             }
         }
@@ -369,7 +391,14 @@ fn low_level_c13(rep: &Report, st: &mut Stats, mk: Kind, sk: StartKind, kind: Op
                         });
                     }
                 };
-                let inp = || Input::new(hay.as_str()).anchored(anc);
+              // shapes 0 and 1 only: on an input that is already done (start =
+              // end + 1) the low-level trait methods return "no match" before
+              // looking at the configuration; the property speaks about the
+              // top-level searcher, which rejects first (checked above for all
+              // shapes), so that behaviour is not judged here.
+              for shape in 0..2usize {
+                let (ss, se) = shape_span(hay, shape);
+                let inp = || Input::new(hay.as_str()).span(ss..se).anchored(anc);
                 check("try_find", !covered, catch_unwind(AssertUnwindSafe(|| a.try_find(&inp()).map(|_| ()).map_err(|_| ()))));
                 check("try_find_iter", !covered, catch_unwind(AssertUnwindSafe(|| a.try_find_iter(inp()).map(|it| { it.take(999).count(); }).map_err(|_| ()))));
                 check("try_find_overlapping", !covered || !std, catch_unwind(AssertUnwindSafe(|| {
@@ -377,9 +406,10 @@ fn low_level_c13(rep: &Report, st: &mut Stats, mk: Kind, sk: StartKind, kind: Op
                     a.try_find_overlapping(&inp(), &mut s).map_err(|_| ())
                 })));
                 check("try_find_overlapping_iter", !covered || !std || anchored, catch_unwind(AssertUnwindSafe(|| a.try_find_overlapping_iter(inp()).map(|it| { it.take(999).count(); }).map_err(|_| ()))));
-                if !anchored {
+                if !anchored && shape == 0 {
                     check("try_stream_find_iter", !covered || !std || sname == "withempty", catch_unwind(AssertUnwindSafe(|| a.try_stream_find_iter(hay.as_bytes()).map(|it| { it.take(999).count(); }).map_err(|_| ()))));
                 }
+              }
             }
         }
     }
@@ -446,7 +476,7 @@ pub fn replay_c13(case: &J) -> i32 {
     };
     let reject = expected(mk, sk, anc, shape, api);
     let exp = if !reject { Cls::Ok } else if api.fallible { Cls::Err } else { Cls::Panic };
-    let got = call_api(&ac, api.name, &hay, anc, pats.len());
+    let got = call_api_shape(&ac, api.name, &hay, anc, pats.len(), case.usize_of("shape"));
     println!("expected {:?} (rejected={}), observed {:?}", exp, reject, got);
     if got == exp {
         0
@@ -490,6 +520,11 @@ fn c20_families(thorough: bool) -> Vec<(String, Pats, bool)> {
         ("a^kb".into(), (1..=12).map(|k| { let mut p = vec![b'a'; k]; p.push(b'b'); p }).collect(), true),
         ("n300".into(), (0..300u32).map(|i| format!("p{}x{}", i, i % 7).into_bytes()).collect(), true),
         ("binary-tree".into(), universe::strings(b"ab", 5).into_iter().filter(|s| !s.is_empty()).collect(), true),
+        ("shadowed-prefix-packed".into(), vec![b("sam"), b("samwise"), b("frodo"), b("gandalf"), b("pippin")], true),
+        ("shadowed-prefix-packed-2".into(), vec![b("ab"), b("abc"), b("cd"), b("ef"), b("gh"), b("abd"), b("cde")], true),
+        ("shadowed-prefix-middle".into(), vec![b("frodo"), b("sam"), b("samwise"), b("sa"), b("gandalf"), b("pippin"), b("gand")], true),
+        ("shadowed-dups".into(), vec![b("foo"), b("bar"), b("foo"), b("quux"), b("foobar"), b("zap")], true),
+        ("rare-byte-ids".into(), vec![b("ez"), b(" z"), b("tz"), b("ezz")], true),
         ("n1000".into(), (0..1000u32).map(|i| format!("p{}x{}", i, i % 7).into_bytes()).collect(), false),
     ];
     if thorough {
@@ -614,6 +649,25 @@ fn check_c20(name: &str, pats: &Pats, o: &Opt, st: &mut Stats) -> Result<(), Str
                 if g != exp {
                     return Err(format!("searching pattern {} (\"{}\") as haystack: got {:?}, SPEC {:?}", i, json::show(&h[..h.len().min(20)]), g, exp));
                 }
+            }
+        }
+        // the same pattern in the middle of a long haystack (vector / prefilter paths)
+        if !anchored && h.len() <= 64 && pats.len() <= 400 {
+            let fl = universe::bottom(pats);
+            let mut long = vec![fl; 37];
+            long.extend_from_slice(h);
+            long.extend(std::iter::repeat(fl).take(21));
+            let got = catch_unwind(AssertUnwindSafe(|| ac.try_find(Input::new(&long))));
+            st.add("searches", 1);
+            let exp = spec.find(o.mk, &long, 0, long.len(), false);
+            match got {
+                Ok(Ok(g)) => {
+                    let g = g.map(|m| (m.pattern().as_usize(), m.start(), m.end()));
+                    if g != exp {
+                        return Err(format!("searching pattern {} (\"{}\") inside 37+21 filler bytes: got {:?}, SPEC {:?}", i, json::show(&h[..h.len().min(20)]), g, exp));
+                    }
+                }
+                other => return Err(format!("search of embedded pattern {} failed: {:?}", i, other.map(|r| r.map(|_| ()).map_err(|e| e.to_string())).map_err(|p| crate::aut::panic_msg(&p)))),
             }
         }
         // all occurrences with identifiers (standard, unanchored): each pattern is found under its own id
